@@ -187,7 +187,26 @@ class Executor:
         raise ValueError(op)
 
 
-def execute(loaded, ops, truth, hooks=None, bodies=None, event_budget=20000):
+def _script_hook(ex, key, steps):
+    """Scripts: calls made by a condition / capture / error factory / body (DESIGN 3.1.5)."""
+
+    def hook(run, kw):
+        for step in steps:
+            if key[0] == "body":
+                if run.fuel <= 0:
+                    return
+                run.fuel -= 1
+            try:
+                ex._do(step)
+            except RecursionError:
+                raise
+            except Exception:  # noqa - scripts swallow what their calls raise (the reference does the same)
+                pass
+
+    return hook
+
+
+def execute(loaded, ops, truth, hooks=None, bodies=None, event_budget=20000, scripts=None, fuel=0):
     """Run ops in the *current* thread under a fresh vrt.Run. Returns (log, outcomes, run)."""
     run = vrt.Run(truth={int(k) if not isinstance(k, int) else k: v for k, v in truth.items()},
                   bodies=bodies, event_budget=event_budget)
@@ -196,6 +215,10 @@ def execute(loaded, ops, truth, hooks=None, bodies=None, event_budget=20000):
     V.begin(run)
     try:
         ex = Executor(loaded, run)
+        if scripts:
+            run.fuel = fuel
+            for key, steps in scripts.items():
+                run.hooks[tuple(key)] = _script_hook(ex, tuple(key), steps)
         outs = [ex.do(op) for op in ops]
         run.instances = ex.inst
     finally:
